@@ -168,6 +168,7 @@ func C16(c *sim.Ctx) {
 		minAge = time.Duration(1+t.Draw("minage.min", 90)) * time.Minute
 		opts = append(opts, pruner.WithMinAge(minAge), pruner.WithFloorTickInterval(7*time.Minute))
 	}
+	aheadClock := minAge > 0 && t.Draw("ts.class", 4) == 3
 	d := newChainDriver(c)
 	d.opts.MaxEvents = 1 + t.Draw("max.events", 2)
 	d.opts.MaxTxs = 1 + t.Draw("max.txs", 3)
@@ -318,7 +319,13 @@ func C16(c *sim.Ctx) {
 			if len(m.Chain) >= 40 {
 				continue
 			}
-			d.opts.MinTime = uint64(time.Now().Unix()) - uint64(t.Draw("ts.skew", 600))
+			// block timestamps around the node's clock; in the "fast sequencer clock" class they run
+			// ahead of it (the node's clock is behind), which makes every block look young
+			if aheadClock {
+				d.opts.MinTime = uint64(time.Now().Unix()) + uint64(t.Draw("ts.ahead", 7200))
+			} else {
+				d.opts.MinTime = uint64(time.Now().Unix()) - uint64(t.Draw("ts.skew", 600))
+			}
 			b := d.next(m.Head())
 			inOwnOp = true
 			for _, n := range []*Node{p.n, twin} {
